@@ -102,6 +102,10 @@ func (c *FrameCodec) Decode(src *sonic.ByteBuffer) (Frame, error) {
 func (c *FrameCodec) Encode(frame Frame, dst *sonic.ByteBuffer) error {
 	// TODO this can be improved: we can serialize directly in the buffer with zero-copy semantics
 
+	// A pooled frame keeps the length of its previous use until SetPayload is called. Only the header and the declared
+	// payload belong on the wire.
+	frame = frame[:frame.payloadOffset()+frame.PayloadLength()]
+
 	// ensure the destination buffer can hold the serialized frame
 	dst.Reserve(frame.PayloadLength() + frameMaxHeaderLength)
 
